@@ -681,6 +681,7 @@ func TestVerifC06Hist(t *testing.T) {
 			steps = r.Range(10, 25)
 		}
 		usedAlloc := false
+		foreignSeen, ampClauseOK := false, true
 		for s := 0; s < steps; s++ {
 			kind := r.Intn(20)
 			switch {
@@ -919,6 +920,9 @@ func TestVerifC06Hist(t *testing.T) {
 				rm.Update(c06Node, alloc)
 				shadow[uid] = &c06Shadow{cpus: got, cells: cells}
 				check("allocate+update")
+				if c06AmpBind && !foreignSeen && ampClauseOK { // gated clause (verif_c06_amp_test.go), also on the random histories
+					ampClauseOK = c06ChargedOracle(h, rm, plugin, tom, node, topo, shadow, capAmp, ratioNum, ratioDen, "allocate+update")
+				}
 			case kind < 13: // foreign Update (e.g. replayed from a pod annotation)
 				uid := nextUID
 				if len(shadow) > 0 && r.Chance(1, 4) {
@@ -973,6 +977,7 @@ func TestVerifC06Hist(t *testing.T) {
 				h.Op("%s", c06PodOp("upd", uid, c06Excl(excl), cpus, cells, order))
 				rm.Update(c06Node, pa)
 				shadow[uid] = &c06Shadow{cpus: cpus, cells: c06NonZero(cells)}
+				foreignSeen = true
 				h.Tag("hist:foreign-update")
 				check("foreign-update")
 			case kind < 14: // addPodAllocation for an already recorded pod: must be ignored
@@ -1049,6 +1054,16 @@ func TestVerifC06Hist(t *testing.T) {
 			h.Nontrivial()
 		}
 		h.End()
+	}
+	if c06AmpBind { // directed stream, OFF by default: see verif_c06_amp_test.go
+		for j := 0; j < c06AmpBindCases; j++ {
+			r := h.Begin(n + j)
+			if r == nil {
+				continue
+			}
+			c06AmpBindCase(h, r, j)
+			h.End()
+		}
 	}
 	h.Close("one case = one history (3-10, thorough up to 25 ops) on a real resourceManager over a generated topology " +
 		"(1-4 sockets x 1-4 nodes x 1-8 cores x 1/2/4 threads, <= 48 CPUs), sharing limit 1-3, reserved CPUs; ops: real Allocate " +
